@@ -114,6 +114,7 @@ def run(chk: common.Check, tier: str):
     chk.oblige("instance lemmas: the extracted NullableVisitor table grants every construct its empty match (nul_tbl_ok) and "
                "is monotone (hypotheses of the C19 theorems)", rc == 0, out[-2000:])
     cases, descs, jobs, meta = [], [], [], []
+    hcases = []
     for text in grammar_texts(tier):
         try:
             g = A.permuted(text, None)
@@ -135,6 +136,7 @@ def run(chk: common.Check, tier: str):
         chk.sample(desc, 4)
         cases.append(f"({term}, {clist(sorted(fs.items()), lambda kv: f'({cstr(kv[0])}, {clist(kv[1], cstr)})')})")
         descs.append(desc)
+        hcases.append(f"({term}, {clist(sorted(A.ranks_from_graph(res['graph']).items()), lambda kv: f'({cstr(kv[0])}, {kv[1]}%nat)')})")
         jobs.append({"grammar": text, "inputs": A.inputs_upto(A.alphabet(text), 3, 150), "rules": list(g.rules)})
         meta.append((text, fs))
         if "invalid" in text:      # the error mode of the semantics: alternatives that mention invalid... rules are tried too
@@ -149,6 +151,19 @@ def run(chk: common.Check, tier: str):
         chk.oblige(f"instance conditions of C19_first_token_sound on {len(cases)} grammars of the class: the table computed by "
                    "the real FirstSetCalculator is closed under the FIRST equations (Analysis/FirstPure.v, evaluated with the "
                    "nullable flags of the analysis) and the grammar is in the class (lookahead operands single tokens)",
+                   not failing, json.dumps([descs[i] for i in failing[:3]]))
+    HYP = ("fun c => let rs := rules (fst c) in match compute_nullables nullable_tbl iter_fields_tbl rs with "
+           "| Some st => acyclic_b rs (fun k => memN k (n_items st)) (snd c) && ne_rules rs | None => false end")
+    failing = common.run_cases(chk, "closedhyp", PRELUDE + "From Pegen Require Import Proofs.VisitAll Proofs.FirstClosedInst.\n"
+                               "Lemma nullable_table_visits_all : visit_all_ok nullable_tbl iter_fields_tbl = true.\n"
+                               "Proof. vm_compute. reflexivity. Qed.\n",
+                               "grammar * list (string * nat)", hcases, HYP, shard=200)
+    if failing is not None:
+        chk.oblige(f"instance conditions of C19_computed_table_is_closed / C19_computed_first_sets_are_sound on {len(hcases)} grammars "
+                   "of the class: the extracted table visits everything (visit_all_ok), no leaf is the empty string, and a rank "
+                   "computed from the REAL first graph strictly decreases along the initial invocations of the model's analysis "
+                   "(no rule reaches itself at one position) -- so the theorem applies: the table the calculator model computes "
+                   "(compared with the real one by K-first) is closed and FIRST is sound for every input",
                    not failing, json.dumps([descs[i] for i in failing[:3]]))
     # ---- the property on the implementation (brute force over enumerated inputs)
     results = common.run_parsers(jobs, chunk=10)
